@@ -469,6 +469,35 @@ struct message_t
     std::vector<char> strbuf;
 };
 
+// The port that the last component of an address names. Ports::apropos is
+// content with a port whose name merely starts with the path ("depth" finds a
+// sibling "depthmod" that happens to be listed first); such a hit is replaced
+// by the sibling that matches the whole component, if there is one
+static const Port* port_of_path(const Ports& ports, const std::string& path,
+                                std::string::size_type last_slash)
+{
+    const Port* port = ports.apropos(path.c_str());
+    const char* leaf = path.c_str() + last_slash + 1;
+    const size_t len = strlen(leaf);
+    auto whole = [leaf, len](const Port& p) {
+        return rtosc_match_path(p.name, leaf, NULL) ||
+               (!strncmp(p.name, leaf, len) && p.name[len] == '#'); };
+    if(!port || !len || whole(*port))
+        return port;
+    const Ports* table = &ports;
+    if(last_slash > 0)
+    {
+        const Port* parent =
+            ports.apropos(path.substr(0, last_slash+1).c_str());
+        table = parent ? parent->ports : nullptr;
+    }
+    if(table)
+        for(const Port& p : *table)
+            if(whole(p))
+                return &p;
+    return port;
+}
+
 void scan_deps(const std::string& orig_portname, std::string cur_portname,
                const Ports& ports, const std::map<std::string, message_t*>& message_map, const std::vector<message_t>& message_v)
 {
@@ -496,7 +525,7 @@ void scan_deps(const std::string& orig_portname, std::string cur_portname,
         // merely starts with the same characters
         const Port* port = is_parent
             ? ports.apropos((cur_portname + '/').c_str())
-            : ports.apropos(cur_portname.c_str());
+            : port_of_path(ports, cur_portname, last_slash);
         if(port)
         {
             const char* dep_types[3] = { "enabled by", "depends", "default depends" };
